@@ -504,12 +504,21 @@ func (o Obs) slim() Obs {
 // clean concurrent with the process
 
 func genRace(r *lib.Rng, big bool) Spec {
-	v := r.Range(16, 32)
-	if big {
-		v = r.Range(40, 120)
-	}
 	sp := Spec{Kind: "race", Compress: r.Chance(1, 3), Root: "cache", High: 1, Low: 0, Marks: "high=1 low=0"}
-	rc := &Race{Victims: v, Files: r.Range(1, 3), FileSize: pick3(r, 0, 100, 3000), Pos: r.Range(v/2, v), KeySeed: r.U64()}
+	// the window is as long as the loop takes to get from the first entry to the precious one: many entries
+	// (a compressed entry is one file and goes quickly) and, in the larger half, more than the model side can take
+	var v int
+	switch {
+	case sp.Compress && big:
+		v = r.Range(300, 700)
+	case sp.Compress:
+		v = r.Range(60, 130)
+	case big:
+		v = r.Range(120, 350)
+	default:
+		v = r.Range(16, 32)
+	}
+	rc := &Race{Victims: v, Files: r.Range(2, 3), FileSize: pick3(r, 0, 100, 3000), Pos: r.Range(v/2, v), KeySeed: r.U64()}
 	rc.How = lib.Pick(r, []string{"retrieve", "retrieve", "retrieve-outs", "store"})
 	if sp.Compress {
 		rc.Files = 1
@@ -534,6 +543,13 @@ func executeRace(spec Spec) *run {
 	rs := spec.Race
 	r := &run{spec: spec, after: map[string]bool{}}
 	r.obs.Race = &RaceObs{}
+	t0 := time.Now()
+	phase := func(name string) {
+		if os.Getenv("VERIF_C14_DEBUG") != "" {
+			fmt.Fprintf(os.Stderr, "  %s at %v\n", name, time.Since(t0))
+		}
+	}
+	defer phase("end")
 	parent, err := os.MkdirTemp("", "c14-race-")
 	must(err)
 	defer os.RemoveAll(parent)
@@ -575,6 +591,7 @@ func executeRace(spec Spec) *run {
 		writeFile(filepath.Join(parent, pt.OutDir(), f), rs.FileSize+1)
 		pt.AddOutput(f)
 	}
+	phase("written")
 	old := time.Unix(start-5_000_000, 0)
 	for i, p := range victims {
 		must(os.Chtimes(p, time.Unix(start+base+int64(i)*step, 0), old))
@@ -600,6 +617,7 @@ func executeRace(spec Spec) *run {
 		}
 	}
 	r.obs.Spec = r.spec
+	phase("listed")
 
 	done := make(chan uint64, 1)
 	go func() { done <- dc.Clean(spec.High, spec.Low) }()
@@ -612,6 +630,9 @@ func executeRace(spec Spec) *run {
 		runtime.Gosched()
 	}
 	ro.Started = !exists(victims[0])
+	if os.Getenv("VERIF_C14_DEBUG") != "" {
+		fmt.Fprintf(os.Stderr, "race: started=%v after %v (victims %d, pos %d, %s, compress %v)\n", ro.Started, time.Since(deadline.Add(-60*time.Second)), rs.Victims, rs.Pos, rs.How, spec.Compress)
+	}
 	ro.KLo = 1
 	switch rs.How {
 	case "retrieve":
@@ -625,6 +646,7 @@ func executeRace(spec Spec) *run {
 		panic("unknown race operation " + rs.How)
 	}
 	ro.Hit = ro.Started && ro.OpOK && exists(victims[rs.Pos-1])
+	phase("op done")
 	gone := 0
 	for gone < len(victims) && !exists(victims[gone]) {
 		gone++
@@ -639,6 +661,7 @@ func executeRace(spec Spec) *run {
 		r.why = "clean did not finish within 120 s"
 		return r
 	}
+	phase("clean done")
 	var after []lst
 	list(parent, spec.Root, &after)
 	for _, it := range after {
@@ -689,7 +712,7 @@ func runRaces(c *lib.Ctx) {
 	hits, tries := 0, 0
 	for i := 0; i < n; i++ {
 		rg := c.Rng.Fork()
-		sp := genRace(rg, i%4 == 3)
+		sp := genRace(rg, i%2 == 1)
 		var res *run
 		for attempt := 1; attempt <= 3; attempt++ {
 			res = executeRace(sp)
@@ -1109,7 +1132,7 @@ func main() {
 			"stray files and directories with entry-shaped names, water marks at and around the size the code computes; an adversarial stream of 8 boundary layouts " +
 			"(entry-shaped target / package / cache-directory names, occupied rename target, store in progress, entry-shaped content, ties, all-or-nothing); " +
 			"plus shouldClean on all name lengths 0-48 with the padding at and next to the tested index; " +
-			"plus a concurrent stream: 16-120 old entries 2000 s apart and one more entry queued behind at least half of them, the real clean(1, 0) in a goroutine, " +
+			"plus a concurrent stream: 16-700 old entries 2000 s apart and one more entry queued behind at least half of them, the real clean(1, 0) in a goroutine, " +
 			"Retrieve (with and without outputs) or Store of that entry fired when the first eviction is observed, counted as a hit only if the entry queued just before it " +
 			"still exists when the call has returned; on a hit the entry must survive and (Retrieve) the model's interleaved run must give the same directory. " +
 			"distinct = distinct layouts+marks; non-trivial = at least one unprotected and one protected entry and size >= high water mark")
